@@ -4,7 +4,7 @@ EXTENDS Naturals
 Delay(p) == IF p = "late1" THEN 1 ELSE IF p = "late2" THEN 2 ELSE 0
 (* the expected time of disconnection for the real-time runs (0 = never within the horizon) *)
 ExpectedDrop(pg, po, p) ==
-    CASE p = "never" -> pg + po
+    CASE p \in {"never", "capnever"} -> pg + po
       [] p = "stops1" -> 2 * pg + po
       [] p = "stops2" -> 3 * pg + po
       [] OTHER -> 0
